@@ -470,7 +470,8 @@ def _shard_live(shard, seed, tier):
     server = cls(config, ("127.0.0.1", 0), pygopherd.server.GopherRequestHandler, context=ctx)
     server.handle_error = lambda *a: None
     server.daemon_threads = True
-    parent = os.getpid()
+    marker = os.path.join(root, "..", "escaped-live-%d" % os.getpid())
+    parent = rig.guard_forked(server, marker)
     t = threading.Thread(target=server.serve_forever, kwargs={"poll_interval": 0.02}, daemon=True)
     t.start()
 
@@ -529,6 +530,9 @@ def _shard_live(shard, seed, tier):
             os._exit(0)
         server.shutdown()
         server.server_close()
+        if os.path.exists(marker):
+            part.violation("live|%s|worker-escaped" % skind, "a forked worker came back out of process_request() into the accept loop", {"kind": "live", "sel": b"/", "secure": "sgopher", "server": skind})
+            os.unlink(marker)
         rig.reset_lazies()
         inproc.destroy()
         rig.rmtree(root)
